@@ -137,3 +137,17 @@ package transport
 //@   modifies f.effectiveWindowSize
 //@   requires f != nil
 //@   ensures f.effectiveWindowSize == f.limit - f.unacked
+
+// ---- C09: reserved / whitelisted header names -----------------------------------
+
+//@ func isReservedHeader
+//@   prop C09
+//@   pure
+//@   nopanic
+//@   ensures result == ((len(hdr) > 0 && hdr[0] == ':') || hdr == "content-type" || hdr == "user-agent" || hdr == "grpc-message-type" || hdr == "grpc-encoding" || hdr == "grpc-message" || hdr == "grpc-status" || hdr == "grpc-timeout" || hdr == "te")
+
+//@ func isWhitelistedHeader
+//@   prop C09
+//@   pure
+//@   nopanic
+//@   ensures result == (hdr == ":authority" || hdr == "user-agent")
